@@ -391,7 +391,10 @@ class AsyncInotifyWrapper:
                     # so we can check for it when the directory reappears.
                     watch = self.watches.get(path)
                     if watch is not None:
-                        self.inotify.rm_watch(watch)
+                        # The kernel may have dropped the watch already (directory moved and
+                        # removed in quick succession), which `rm_watch` reports as an error.
+                        with contextlib.suppress(OSError):
+                            self.inotify.rm_watch(watch)
                         self.watches[path] = None
                         self.change_queue.put_nowait((Change.DELETED_PARENT, path))
                 else:
@@ -400,12 +403,19 @@ class AsyncInotifyWrapper:
                         path = paths.pop(0)
                         if path not in self.watches:
                             continue
-                        if self.watches[path] is None:
-                            # When a directory is added that was once watched,
-                            # recreate the watch right away.
-                            self._install_watch(path)
-                        # Events of files created in this directory may have been missed.
-                        for sub_path in path.iterdir():
+                        try:
+                            if self.watches[path] is None:
+                                # When a directory is added that was once watched,
+                                # recreate the watch right away.
+                                self._install_watch(path)
+                            # Events of files created in this directory may have been missed.
+                            sub_paths = list(path.iterdir())
+                        except OSError:
+                            # The directory is gone again (e.g. `mkdir d; rmdir d`).
+                            # Its removal arrives as an event of its own.
+                            self.watches[path] = None
+                            continue
+                        for sub_path in sub_paths:
                             if sub_path.is_file():
                                 self.change_queue.put_nowait((Change.UPDATED, sub_path))
                             elif sub_path.is_dir():
